@@ -32,6 +32,10 @@ fn table(id: &str) -> Option<(RunFn, ReplayFn, Vec<&'static str>)> {
         "C01" => (mon::c01::run as RunFn, mon::c01::replay as ReplayFn, vec!["supply is summed from the decoded coin and pool trees; every tree entry must be explained by an identifier the harness created", "RefSTF's peg/subsidy amounts bound what may be issued at sealing"]),
         "C02" => (mon::c02::run, mon::c02::replay, vec!["RefSTF is the model of what acceptance requires; only the necessary direction is enforced", "batches spending non-first outputs of staking transactions are excluded"]),
         "C09" => (mon::c09::run, mon::c09::replay, vec!["genesis supply per denomination is kept below 2^126", "engine and dependencies are built with overflow-checks and debug-assertions on"]),
+        "C14" => (mon::c14::run, mon::c14::replay, vec!["stake sets are installed through the genesis configuration (epoch 0); equality at exactly 2/3 is treated as unspecified"]),
+        "C17" => (mon::c17::run, mon::c17::replay, vec!["multipliers are installed through the genesis configuration; mainnet/testnet are exercised at height 0 (TIP-901 inactive) only"]),
+        "C15" => (mon::c15::run, mon::c15::replay, vec!["the exact settlement formulas are those of DESIGN Appendix A (constants from the code); price_accum is never compared", "for non-canonical pool-key spellings both 'ignored' and 'settled as the canonical pool' are accepted"]),
+        "C16" => (mon::c16::run, mon::c16::replay, vec!["pool-tree keys are decoded through the harness's registry of pool names"]),
         "C20" => (mon::c20::run, mon::c20::replay, vec!["coin-tree keys are decoded through the harness's registry of identifiers"]),
         "C10" => (mon::c10::run as RunFn, mon::c10::replay as ReplayFn, vec!["RefVM's reading of the opcode documentation is the specification; where the documentation is silent RefVM follows the pinned implementation (regression oracle)", "programs with reference weight above 50 000 are not executed"]),
         "C11" => (mon::c11::run, mon::c11::replay, vec!["memory is measured as heap bytes allocated by the calling thread", "time is measured as instructions executed and weigh steps, never wall-clock"]),
@@ -92,11 +96,48 @@ fn main() {
                     }
                 }
             }
-            let (out, rule, exhaustive) = run(&ctx);
+            // pinned cases of known findings: executed on every run; a KNOWN-FINDING line is printed only if still present
+            let mut pinned_results = vec![];
+            let pdir = evidence::verif_root().join("pinned").join(&id);
+            let mut pinned_hits: BTreeMap<String, u64> = BTreeMap::new();
+            if let Ok(rd) = std::fs::read_dir(&pdir) {
+                let mut files: Vec<_> = rd.filter_map(|e| e.ok()).map(|e| e.path()).filter(|p| p.extension().map(|x| x == "json").unwrap_or(false)).collect();
+                files.sort();
+                for f in files {
+                    if let Ok(b) = std::fs::read(&f) {
+                        if let Ok(v) = serde_json::from_slice::<serde_json::Value>(&b) {
+                            let case = v["case"].clone();
+                            let r = std::thread::Builder::new()
+                                .name("s202".into())
+                                .stack_size(256 << 20)
+                                .spawn(move || replay(&case))
+                                .unwrap()
+                                .join()
+                                .expect("pinned thread died");
+                            match r {
+                                Ok(()) => pinned_results.push(serde_json::json!({"file": f.display().to_string(), "finding_present": false})),
+                                Err(viol) => {
+                                    pinned_results.push(serde_json::json!({"file": f.display().to_string(), "finding_present": true, "signature": viol.signature}));
+                                    if ctx.known.matches(&id, &viol.signature).is_some() {
+                                        *pinned_hits.entry(viol.signature.clone()).or_insert(0) += 1;
+                                    } else {
+                                        violations.push((viol, f.clone()));
+                                    }
+                                }
+                            }
+                        }
+                    }
+                }
+            }
+            let (mut out, rule, exhaustive) = run(&ctx);
+            for (k, v) in pinned_hits {
+                *out.stats.known_hits.entry(k).or_insert(0) += v;
+            }
             violations.extend(out.violations);
             let mut extra = BTreeMap::new();
             extra.insert("replays_rerun".to_string(), serde_json::json!(replay_results));
             extra.insert("shards".to_string(), serde_json::json!(shards));
+            extra.insert("pinned_known_finding_cases".to_string(), serde_json::json!(pinned_results));
             // known findings: print one line per signature that was actually hit
             for (sig, n) in out.stats.known_hits.iter() {
                 if let Some(k) = ctx.known.matches(&id, sig) {
